@@ -324,6 +324,8 @@ class World:
         lf = None
         if df and df["kind"] in ("torn_efbig", "torn_kill"):
             lf = {"kind": df["kind"], "n": df["n"]}
+        elif df and df["kind"] == "kill_at_op":
+            lf = {"kind": "kill_at_op", "k": df["k"], "root": self.root}
         pid = zygote.launch(
             argv, cwd, env, os.devnull if lf else drv_log, fault=lf,
             trace=None if lf else trace_path, proc="driver", readdir_seed=readdir_seed,
